@@ -36,10 +36,19 @@ class PathResult:
 
 
 class Engine:
-    def __init__(self, prog, kf_listed=(), step_cap=3_000_000, seed=0):
+    def __init__(self, prog, kf_listed=(), step_cap=3_000_000, seed=0, alt=None):
         self.prog = prog
-        self.solver = z3.Solver()
-        self.solver.set('timeout', 60000)
+        # default: z3's incremental SMT core.  Fallback (used for work units whose worker had to be killed because a
+        # query neither finished nor honoured its time limit): bit-blasting to SAT, everything re-solved per query
+        self.alt = alt or os.environ.get('VERIF_SOLVER')
+        if self.alt == 'sat':
+            self.solver = z3.Then('simplify', 'propagate-values', 'solve-eqs', 'ackermannize_bv', 'simplify',
+                                  'bit-blast', 'sat').solver()
+        elif self.alt == 'qfbv':
+            self.solver = z3.SolverFor('QF_UFBV')
+        else:
+            self.solver = z3.Solver()
+        self.deadline = None
         self.retried = 0
         self.xrate = int(os.environ.get('VERIF_XCHECK_RATE', '199'))
         self.xq = []
@@ -66,15 +75,22 @@ class Engine:
     def _check(self, *c):
         self.nqueries += 1
         t = time.time()
+        # (re)applied before every query: a limit set earlier was observed not to be honoured by z3 5.1 once the
+        # solver had been pushed
+        self.solver.set('timeout', 30000)
+        self.deadline = t + 30 + 45
         r = self.solver.check(*c)
+        self.deadline = None
         if r == z3.unknown:
             # per-query time limit hit (or incompleteness): retry once in a fresh solver with another seed
             s2 = z3.Solver()
-            s2.set('timeout', 180000)
+            s2.set('timeout', 90000)
             s2.set('random_seed', 7 + self.nqueries % 1000)
             for a in self.solver.assertions():
                 s2.add(a)
+            self.deadline = time.time() + 90 + 45
             r = s2.check(*c)
+            self.deadline = None
             self.last_retry_model = s2.model() if r == z3.sat else None
             self.retried += 1
         else:
@@ -89,7 +105,7 @@ class Engine:
                 sx.add(a)
             self.xq.append(('sat' if r == z3.sat else 'unsat', sx.to_smt2()))
         if r == z3.unknown:
-            raise ModelGap('solver returned unknown (time limit 60 s + 180 s retry): ' + self.solver.reason_unknown())
+            raise ModelGap('solver returned unknown (time limit 30 s + 90 s retry in a fresh solver): ' + self.solver.reason_unknown())
         return r == z3.sat
 
     def need_model(self):
